@@ -336,11 +336,24 @@ def tlsgd_protected_shared_domain(ref, t, mode):
     return mode == "shared" and ref == "tlsgd" and t["kind"] in ("tdata", "tbss") and t["bind"] == "protected"
 
 
+_KNOWN_C01 = None
+
+
+def _still_known(sig):
+    """True while known_findings.jsonl lists `sig` for C01 with status `known` (a fixed finding's
+    domain is searched again)."""
+    global _KNOWN_C01
+    if _KNOWN_C01 is None:
+        from . import core as _core
+        _KNOWN_C01 = {e["signature"] for e in _core.load_known("C01") if e.get("status") == "known"}
+    return sig in _KNOWN_C01
+
+
 def known_domain(ref, t, mode):
     """Signature of the known finding whose exact domain contains this reference, else None."""
-    if abs_domain_known_defect(ref, t):
+    if abs_domain_known_defect(ref, t) and _still_known("abs-gotpcrelx-imm-sign-extended"):
         return "abs-gotpcrelx-imm-sign-extended"
-    if tlsgd_protected_shared_domain(ref, t, mode):
+    if tlsgd_protected_shared_domain(ref, t, mode) and _still_known("tlsgd-protected-shared"):
         return "tlsgd-protected-shared"
     return None
 
